@@ -277,6 +277,11 @@ func runOnce(d Desc, sc *scen.Scenario) mon.Result {
 		}
 	} else {
 		obs["op_timed_out_or_failed"]++
+		if d.Setting != "writeblock" && !released && s.Conn.Delivered() < d.Base+d.K {
+			// the operation gave up before the device had gone silent at all: the stall cannot be
+			// the reason, a step simply took longer than the (short) timeout on this machine
+			return mon.Result{Verdict: mon.Inconclusive, Detail: fmt.Sprintf("load: operation failed (%v) with %d bytes delivered, before the stall point %d was reached", r.err, s.Conn.Delivered(), d.Base+d.K)}
+		}
 		if expectSuccess && released {
 			if mon.LoadedSince(t00) {
 				return mon.Result{Verdict: mon.Inconclusive, Detail: "load: failure after resume under load"}
